@@ -101,6 +101,59 @@ func TestCompileNames(t *testing.T)    { campaign(t, gen.Names()) }
 func TestCompileWide(t *testing.T)     { campaign(t, gen.Wide()) }
 func TestCompileGRPC(t *testing.T)     { campaign(t, gen.GRPCProfile()) }
 
+// TestCompileFixed pushes the fixed matrix designs (every primitive kind in
+// every parameter location alone in its method, the parameter / view /
+// defaults / gRPC matrices) through the same pipeline.
+func TestCompileFixed(t *testing.T) {
+	if rt.ReplayDir() != "" {
+		replayDesign(t)
+		return
+	}
+	sess, err := pipeline.NewSession("c01f")
+	if err != nil {
+		t.Fatalf("INCONCLUSIVE: %v", err)
+	}
+	defer sess.Close()
+	sess.GenTimeout = 300 * time.Second
+	designs := []*m.Design{gen.KindMatrix(), gen.ParamMatrix(), gen.ViewMatrix(), gen.DefaultsMatrix(), gen.GRPCMatrix()}
+	outs := make([]*pipeline.Outcome, len(designs))
+	var wg sync.WaitGroup
+	for i := range designs {
+		wg.Add(1)
+		go func(i int) {
+			defer wg.Done()
+			outs[i] = sess.GenerateAndCompile(designs[i], true)
+		}(i)
+	}
+	wg.Wait()
+	failures := 0
+	for i, o := range outs {
+		d := designs[i]
+		for _, f := range d.Features {
+			stats.Class("feature:" + f)
+		}
+		if !o.Accepted && o.Failure == "" {
+			t.Errorf("INCONCLUSIVE: fixed design %s is rejected by goa: %v", d.API.Name, o.Rejected)
+			continue
+		}
+		stats.Class("accepted")
+		stats.CaseSample("fixed|"+d.API.Name, true, map[string]any{"design": d.API.Name, "features": d.Features, "files": o.Files, "outcome": firstLine(o.Describe())})
+		if o.Failure == "" {
+			continue
+		}
+		if q := gen.MatchQuirks(d, o.Sig); len(q) > 0 {
+			fmt.Printf("fixed design %s: explained by open known finding(s) %v\n", d.API.Name, q)
+			continue
+		}
+		failures++
+		dir := saveReplay(t, o, nil, 100+i)
+		fmt.Printf("fixed design %s fails: %s\n%s\nVIOLATION-DETAIL property=C01 replay=%s\n", d.API.Name, o.Sig, firstLines(o.Detail, 14), dir)
+	}
+	if failures > 0 {
+		t.Fatalf("%d fixed design(s) whose generated code does not build or whose generator failed", failures)
+	}
+}
+
 func campaign(t *testing.T, prof gen.Profile) {
 	if rt.ReplayDir() != "" {
 		replayDesign(t)
